@@ -271,5 +271,63 @@ Proof.
 Qed.
 Print Assumptions F_zero_mul_factor.
 
+(* f64::MAX, as build() uses it *)
+Lemma Prim2B_fmax :
+  exists h, Prim2B (fmax_ NumF) = B754_finite false 9007199254740991 971 h.
+Proof.
+  apply Prim2B_finite_facts. vm_compute. reflexivity.
+Qed.
+
+(* the cooling factor min(max(0, 1 - r), f64::MAX) is a finite number with the sign of +0 for
+   EVERY cooling ratio r: finite, infinite of either sign, or not a number *)
+Theorem F_factor_always_finite : forall r : F,
+  let f := nmin (NN:=NumF) (nmax (NN:=NumF) 0%float (fsub 1%float r)) (fmax_ NumF) in
+  ffinite f = true /\ Bsign (Prim2B f) = false.
+Proof.
+  intros r f.
+  set (x := fsub 1%float r) in *.
+  set (y := nmax (NN:=NumF) 0%float x) in *.
+  (* y is +0 or a positive number or +infinity *)
+  assert (Hy : Bsign (Prim2B y) = false /\ Prim2B y <> B754_nan).
+  { unfold y. rewrite nmax_F_zero.
+    destruct (fltb x 0%float) eqn:E1; [rewrite Prim2B_zero; split; [reflexivity|discriminate]|].
+    destruct (fltb 0%float x) eqn:E2; [|rewrite Prim2B_zero; split; [reflexivity|discriminate]].
+    rewrite ltb_equiv, Prim2B_zero in E2.
+    destruct (Prim2B x) as [s|s| |s m e h]; try destruct s;
+      cbv [Bltb SFltb SFcompare B2SF] in E2; try discriminate; split; try reflexivity; discriminate. }
+  destruct Hy as [Hs Hn].
+  destruct Prim2B_fmax as [hM EM].
+  unfold f, nmin. cbn [nltb NumF].
+  destruct (fltb y (fmax_ NumF)) eqn:L1.
+  - split; [|exact Hs]. unfold ffinite.
+    rewrite ltb_equiv, EM in L1.
+    destruct (Prim2B y) as [s|s| |s m e h]; try reflexivity.
+    + cbn in Hs. subst s. discriminate.
+    + now elim Hn.
+  - destruct (fltb (fmax_ NumF) y) eqn:L2.
+    + unfold ffinite. rewrite EM. split; reflexivity.
+    + split; [|unfold nis_nan; cbn [neqb NumF]; destruct (negb _); [rewrite EM; reflexivity | exact Hs]].
+      unfold nis_nan. cbn [neqb NumF].
+      destruct (negb (feqb y y)); [unfold ffinite; rewrite EM; reflexivity|].
+      unfold ffinite. rewrite ltb_equiv, EM in L2.
+      destruct (Prim2B y) as [s|s| |s m e h]; try reflexivity.
+      * cbn in Hs. subst s. discriminate.
+      * now elim Hn.
+Qed.
+Print Assumptions F_factor_always_finite.
+
+Theorem F_zero_mul_any_factor : forall r : F,
+  fmul 0%float (nmin (NN:=NumF) (nmax (NN:=NumF) 0%float (fsub 1%float r)) (fmax_ NumF)) = 0%float.
+Proof. intros r. destruct (F_factor_always_finite r). now apply F_zero_mul. Qed.
+Print Assumptions F_zero_mul_any_factor.
+
+(* a zero of either sign is not above zero *)
+Lemma F_zero_not_positive (x : F) : feqb x 0%float = true -> fltb 0%float x = false.
+Proof.
+  rewrite eqb_equiv, ltb_equiv, Prim2B_zero.
+  destruct (Prim2B x) as [s|s| |s m e h]; try destruct s; intros H; try reflexivity;
+    cbv [Beqb SFeqb SFcompare B2SF] in H; discriminate.
+Qed.
+
 Theorem F_zero_mul_tenth : fmul 0%float (tenth NumF) = 0%float.
 Proof. reflexivity. Qed.
